@@ -32,6 +32,10 @@ func runC08(p *eng.Prog, r *eng.Report, tier string) {
 	// handler kept from an earlier element must not be the object the current element is read through
 	closerFresh(c, "C08.23")
 	c07HandlerEOFIsAFailure(c, "C08.24")
+	// C08.25 (= C12.16): a header that omits an attribute leaves the field alone - the session's own
+	// address, against which the from of incoming stanzas is normalised, survives a header without to
+	c12HeaderKeepsAbsent(c, "C08.25")
+	c06WaiterIDIsTheWireID(c, "C08.26")
 	c08Handle(c)
 	c08Reader(c)
 	// C08.10 a received stream error is returned as such: its decoder consumes
